@@ -108,7 +108,11 @@ def handle : P String := do
     let A : Banded Rat := { rows := rows, cols := cols, offsets := off.toArray, val := v.toArray }
     if op == "dense" then pure (showD rows cols A.toDense) else
     match runOp op t rows cols (fun x r tr => A.applyQ x r tr) (fun x y r al ali tr => A.applyAxpyQ x y r al ali tr) with
-    | .ok s => pure s
+    | .ok s =>
+      -- `banded_transposed_generic` is XABORTM("not implemented"); the aliasing assertion on two empty vectors
+      -- (0x0 matrix) fires before it and is a different outcome
+      if s == "ABORT" && (op == "applyT" || op == "axpyT") && !(rows == 0 && cols == 0) then pure "ABORT:not-offered"
+      else pure s
     | .error e => throw e
   | "dense" =>
     let op ← tok; let rows ← nat; let cols ← nat
